@@ -331,13 +331,22 @@ def scope_item(rec, _):
             if eff is None or (eff & ~outer):
               rec.viol('scope-widened/get_permission', f'outer={_names(outer)} {name} scope reports {eff!r}', tr)
           # observed gating inside, with and without an explicit (wider) argument
-          for arg in (None, ALL, inner):
+          for arg in (None, ALL, inner, P(0), P.ASSIGN, P.CALL):
             s = Sentinel()
             try:
               pg.coding.evaluate(probe, global_vars=env(s), permission=arg)
               ran = True
             except pg.coding.CodeError:
               ran = False
+            # the effective permission is the outermost scope intersected with the explicit argument
+            if ran and arg is not None and not (arg & P.CALL):
+              rec.viol('argument-ignored-inside-scope',
+                       f'evaluate(permission={_names(arg)}) forbids calls, but inside scope {_names(outer)} '
+                       f'(mid={_names(mid)}, inner={_names(inner)}) the call ran', tr)
+            if not ran and (outer & P.CALL) and (arg is None or (arg & P.CALL)):
+              rec.viol('granted-call-refused-inside-scope',
+                       f'scope {_names(outer)} and argument {None if arg is None else _names(arg)} both allow calls, but the call was refused '
+                       f'(mid={_names(mid)}, inner={_names(inner)})', tr)
             if ran and not (outer & P.CALL):
               rec.viol('scope-widened/evaluate' + ('-explicit-argument' if arg is not None else ''),
                        f'outer scope {_names(outer)} forbids calls, but evaluate(permission={arg!r}) inside '
